@@ -407,7 +407,11 @@ def check(case, cc):
 
     with tempfile.TemporaryDirectory(prefix='vt_c12_') as real_tmp, _cwd(real_tmp if relative else None):
         tmp = '' if relative else real_tmp        # relative: the directories are given the way a user types them (in, out)
-        dir_in = os.path.join(tmp, 'in')
+        # one case in two: the output directories are named so that each is a string prefix of the input directory's name
+        # (data -> data_raw, logs -> logs_1987): directories are distinct things whatever their names share
+        prefix_names = (len(names) + len(datas[0])) % 2 == 0
+        cc.cls('output-directory-name-is-a-prefix-of-the-input-directory-name', prefix_names)
+        dir_in = os.path.join(tmp, 'in_data_0123456789' if prefix_names else 'in')
         os.makedirs(dir_in)
         for k_, (nm, d) in enumerate(zip(names, datas)):
             os.makedirs(os.path.dirname(os.path.join(dir_in, nm)), exist_ok=True)
@@ -466,11 +470,11 @@ def check(case, cc):
                 dev(O_BAD, '%s-file-converted' % kinds[i], '%s: %s file %r (%s) reported as converted: %r' % (what, kinds[i], names[i], files[i]['fmt'], r))
         # ---- (b) sequential, (c) multiprocessing
         modes = []
-        out_seq = os.path.join(tmp, 'out_seq')
+        out_seq = os.path.join(tmp, 'in_data' if prefix_names else 'out_seq')
         res, err = guarded(lambda: WriteLAS.convert_dir_or_file_to_las(dir_in, out_seq, recurse, args[0], args[1], set(case['channels']), tail[0], tail[1], fn))
         modes.append(('sequential', res, err, out_seq))
         for j in case['jobs']:
-            out_j = os.path.join(tmp, 'out_j%d' % j)
+            out_j = os.path.join(tmp, 'in_data_' + '0123456789'[:{1: 1, 2: 2, 3: 3, 4: 4, 8: 8, 16: 9}.get(j, 5)] if prefix_names else 'out_j%d' % j)
             res, err = guarded(lambda: WriteLAS.convert_dir_or_file_to_las_multiprocessing(
                 dir_in, out_j, recurse, args[0], args[1], set(case['channels']), tail[0], tail[1], j, fn))
             modes.append(('jobs=%d' % j, res, err, out_j))
